@@ -11,6 +11,7 @@ import armi.reactor.converters.geometryConverters as gc
 import armi.reactor.grids.hexagonal as hexmod
 import armi.reactor.grids.structuredGrid as sgmod
 from armi.reactor import geometry, grids
+from armi.reactor import parameters as armiParameters
 from armi.settings import Settings
 from armi.settings.fwSettings.globalSettings import CONF_TRACK_ASSEMS
 
@@ -28,7 +29,11 @@ STUBS = ["composites.np / component.np / blocks.np / assemblies.np / geometryCon
          "object-array aware numpy shim", "component.float -> identity on proxies",
          "hexagonal.np / sqrt / isclose -> shims (index-level harness only; identity on plain numbers)",
          "case settings: a default Settings() whose 'trackAssems' entry is the symbolic bool, handed to the real "
-         "Core.setOptionsFromCs (the settings validation machinery itself is not run on the proxy)"]
+         "Core.setOptionsFromCs (the settings validation machinery itself is not run on the proxy)",
+         "process-wide armi state: the 'assigned since ...' flags on the parameter DEFINITIONS (which the converters "
+         "read to select the parameters to scale) are shared by all reactors of a process; every path is a new case, "
+         "so every path starts with armi.reactor.parameters.reset() (armi's own call for 'multiple cases in the same "
+         "import'): a parameter counts as 'never assigned' until the path assigns it"]
 
 THIRD = geometry.SymmetryType(geometry.DomainType.THIRD_CORE, geometry.BoundaryType.PERIODIC)
 FULL = geometry.SymmetryType(geometry.DomainType.FULL_CORE, geometry.BoundaryType.NO_SYMMETRY)
@@ -50,6 +55,12 @@ KNOWN_DEFECT_restore_without_centre = False  # repaired in /repo (fix: 0c76163)
 KNOWN_DEFECT_convert_drops_edge_assemblies = False  # recorded in known_findings.jsonl
 KNOWN_DEFECT_centre_not_scaled_after_noop_addEdge = False  # recorded in known_findings.jsonl
 KNOWN_DEFECT_edge_halves_need_ring3_edge = False  # recorded in known_findings.jsonl
+#  reused_changer_keeps_first_param_list: cells (0,0),(1,0), power = 100 on every block, mgFlux never assigned;
+#    ch = ThirdCoreHexToFullCoreChanger(cs); ch.convert(r); ch.restorePreviousGeometry(r); then every block gets
+#    b.p.mgFlux = [1, 2]; ch.convert(r) (the SAME object) -> the centre mgFlux stays [1, 2], total 12 instead of 18:
+#    the object keeps the list of parameters to scale that it made at its first conversion (a NEW changer object, as
+#    Core.growToFullCore makes, gives 18).  Not yet recorded in known_findings.jsonl: guarded here.
+KNOWN_DEFECT_reused_changer_keeps_first_param_list = False  # repaired in /repo (fix: 6edc306)
 
 LAYOUTS = {
     "c+3": [(0, 0), (1, 0), (2, -1), (1, 1)],          # centre, ring 2, 0-degree line, interior of ring 3
@@ -65,10 +76,13 @@ NG = 2
 VOLKEYS = ("volume", "volume (core)")
 
 
-def build(ctx, cells, nblocks, symmetry="third periodic", numRings=3, sfp=False):
+def build(ctx, cells, nblocks, symmetry="third periodic", numRings=3, sfp=False, assign=None):
     """Mini core with symbolic block heights, number densities and volume-integrated block parameters.  The case
     setting trackAssems (keep discharged assemblies in the spent fuel pool) is a symbolic bool; with sfp=True the
-    reactor has a spent fuel pool that already holds one assembly."""
+    reactor has a spent fuel pool that already holds one assembly.  assign: names of the volume-integrated parameters
+    that get their value here (default: all); the symbols of the others are declared and returned (S) for a later
+    first assignment by the harness."""
+    armiParameters.reset()      # new case: no parameter has been assigned yet (see STUBS)
     track = ctx.bool("trackAssems")
     r, core, pool = U.mk_reactor(symmetry, numRings=numRings, sfp=sfp)
     core.setOptionsFromCs(U.SettingsView(Settings(), **{CONF_TRACK_ASSEMS: track}))
@@ -86,13 +100,42 @@ def build(ctx, cells, nblocks, symmetry="third periodic", numRings=3, sfp=False)
         for k, b in enumerate(a):
             for pn in SCALARS:
                 v = ctx.real("%s_%d_%d" % (pn, ai, k), 0.0, 1e9)
-                b.p[pn] = v
+                if assign is None or pn in assign:
+                    b.p[pn] = v
                 S[ai]["p"][(k, pn)] = v
             for pn in LISTS + ARRAYS:
                 v = [ctx.real("%s_%d_%d_g%d" % (pn, ai, k, g), 0.0, 1e9) for g in range(NG)]
-                b.p[pn] = list(v)
+                if assign is None or pn in assign:
+                    b.p[pn] = list(v)
                 S[ai]["p"][(k, pn)] = v
     return r, core, asms, S
+
+
+def param_values(core, names):
+    """{(cell, block index, parameter, component): value} of the named block parameters, where they have a value."""
+    out = {}
+    for a in core:
+        ij = tuple(int(x) for x in a.spatialLocator.indices[:2])
+        for k, b in enumerate(a):
+            for pn in names:
+                v = b.p[pn]
+                if v is None:
+                    continue
+                for g, x in enumerate([v] if pn in SCALARS else [v[g] for g in range(NG)]):
+                    out[(ij, k, pn, g)] = x
+    return out
+
+
+def input_values(S, cells, nblocks, names):
+    """The same table from the input symbols (third-core values as assigned by build / by the harness)."""
+    out = {}
+    for ai, ij in enumerate(cells):
+        for k in range(nblocks):
+            for pn in names:
+                v = S[ai]["p"][(k, pn)]
+                for g, x in enumerate([v] if pn in SCALARS else list(v)):
+                    out[(ij, k, pn, g)] = x
+    return out
 
 
 def totals(core):
@@ -344,6 +387,220 @@ def third_to_full_multiplies_by_three_and_restores(ctx, layout, nblocks, sfp):
     tot2 = totals(core)
     for key, old in tot0.items():
         ctx.check_close("restored %s = original" % key, tot2[key], old, scale=old + 1e-30)
+
+
+# ---------------------------------------------------------------------------------------------------------------
+# array-valued parameters whose storage is shared between blocks
+
+
+def _set_partitions(items):
+    """All partitions of a list into non-empty groups (15 for 4 items)."""
+    if not items:
+        return [[]]
+    head, out = items[0], []
+    for part in _set_partitions(items[1:]):
+        out.append([[head]] + part)
+        for n in range(len(part)):
+            out.append(part[:n] + [[head] + part[n]] + part[n + 1:])
+    return out
+
+
+# blocks (assembly index, block index) of the layout "c+1" with two blocks per assembly; assembly 0 is the centre
+_BLOCKS4 = [(0, 0), (0, 1), (1, 0), (1, 1)]
+SHARING = {
+    "own": [[x] for x in _BLOCKS4],                               # every block has its own array
+    "centre+other": [[(0, 0), (1, 0)], [(0, 1)], [(1, 1)]],      # a centre block shares with a block elsewhere
+    "centre+centre": [[(0, 0), (0, 1)], [(1, 0)], [(1, 1)]],     # the two centre blocks share
+    "level": [[(0, 0), (1, 0)], [(0, 1), (1, 1)]],               # one array per axial level (flat flux guess)
+    "all": [list(_BLOCKS4)],                                      # one array for the whole core
+    "others": [[(0, 0)], [(0, 1)], [(1, 0), (1, 1)]],            # shared, but not with the centre
+}
+SHARING_ALL = {"/".join("+".join("%d%d" % x for x in grp) for grp in part): part for part in _set_partitions(_BLOCKS4)}
+
+
+@harness("C13", bounds="third-core mini reactor, centre + one ring-3 assembly, 2 blocks each; the two-group flux "
+                       "parameters are handed over as numpy arrays (mgFlux; adjMgFlux as array or python list) and "
+                       "the array / list OBJECT of one value may be shared by several blocks: sharing pattern forked "
+                       "over all 15 set partitions of the 4 blocks (6 named ones: quick, list container); symbolic: the group "
+                       "values [0,1e9] of every sharing group, heights, densities, scalar parameters as above",
+         stubs=STUBS, qtimeout_ms=20000,
+         instances={"quick": [dict(container="array", patterns="all"), dict(container="list", patterns="named")],
+                    "thorough": [dict(container="array", patterns="all"), dict(container="list", patterns="all")]})
+def shared_array_storage_does_not_multiply_the_scaling(ctx, container, patterns):
+    """A code that writes one flux guess to many blocks hands the SAME array object to all of them.  The statement
+    is about values: every total times three, source assemblies as they were (the centre counted once, i.e. its
+    one-third share times three), and everything back after the undo - whoever shares storage with whom."""
+    cells, nblocks = LAYOUTS["c+1"], 2
+    names = LISTS + ARRAYS
+    r, core, asms, S = build(ctx, cells, nblocks)
+    table = SHARING if patterns == "named" else SHARING_ALL
+    part = table[ctx.choice("sharing", sorted(table))]
+    want0 = {}
+    for grp in part:
+        ai0, k0 = grp[0]
+        for pn in names:
+            vals = S[ai0]["p"][(k0, pn)]          # the group's value: the symbols of its first member
+            box = list(vals) if (container == "list" and pn in LISTS) else shims.np_shim.array(list(vals))
+            for (ai, k) in grp:
+                asms[ai][k].p[pn] = box            # one object for the whole group
+                for g in range(NG):
+                    want0[(cells[ai], k, pn, g)] = vals[g]
+    for grp in part:
+        ctx.check("set-up: the blocks of a group hold one and the same object",
+                  all(asms[ai][k].p[pn] is asms[grp[0][0]][grp[0][1]].p[pn] for (ai, k) in grp for pn in names))
+    n0 = len(core)
+    tot0 = {(pn, g): sum(v for (c, k, p, gg), v in want0.items() if p == pn and gg == g) for pn in names
+            for g in range(NG)}
+    got0 = param_values(core, names)
+    for key, w in want0.items():
+        ctx.check_close("third core: %s[%d] of block %d at %s is what was assigned" % (key[2], key[3], key[1], (key[0],)),
+                        got0[key], w, scale=w + 1e-30)
+
+    changer = gc.ThirdCoreHexToFullCoreChanger(Settings())
+    changer.convert(r)
+
+    ctx.check_eq("assembly count = 3 n - 2", len(core), 3 * n0 - 2)
+    got = param_values(core, names)
+    for key, w in want0.items():
+        centre = key[0] == (0, 0)
+        ctx.check_close("full core: %s[%d] of source block %d at %s %s" %
+                        (key[2], key[3], key[1], (key[0],), "= 3 x its one-third share" if centre else "unchanged"),
+                        got[key], 3 * w if centre else w, scale=w + 1e-30)
+        if not centre:
+            for m in (1, 2):
+                img = U.rot120(key[0][0], key[0][1], m)
+                ctx.check_close("full core: the %d-degree copy has the source's %s[%d] (block %d)" %
+                                (120 * m, key[2], key[3], key[1]), got.get((img,) + key[1:]), w, scale=w + 1e-30)
+    for (pn, g), t0 in tot0.items():
+        want = 3 * t0
+        if ctx.canary and pn == "mgFlux" and g == 1:
+            want = want * ITE(S[0]["h"][0] > 399, 1.01, 1.0)
+        tot = sum(v for (c, k, p, gg), v in got.items() if p == pn and gg == g)
+        ctx.check_close("full-core total of %s[%d] = 3 x third-core total" % (pn, g), tot, want, scale=want + 1e-30)
+    # independence of a copy: writing INTO its array leaves the source's values alone
+    cp = core.childrenByLocator.get(core.spatialGrid[U.rot120(cells[1][0], cells[1][1], 1) + (0,)])
+    if cp is not None:
+        keep = cp[0].p.mgFlux[0]
+        cp[0].p.mgFlux[0] = keep + 7.0
+        w = want0[(cells[1], 0, "mgFlux", 0)]
+        ctx.check_close("writing into a copy's flux array does not reach its source", asms[1][0].p.mgFlux[0], w,
+                        scale=w + 1e-30)
+        w = want0[((0, 0), 0, "mgFlux", 0)]
+        ctx.check_close("... nor the centre assembly", asms[0][0].p.mgFlux[0], 3 * w, scale=w + 1e-30)
+        cp[0].p.mgFlux[0] = keep
+
+    changer.restorePreviousGeometry(r)
+
+    ctx.check_eq("restored: assembly count", len(core), n0)
+    got2 = param_values(core, names)
+    for key, w in want0.items():
+        ctx.check_close("restored: %s[%d] of block %d at %s as before" % (key[2], key[3], key[1], (key[0],)),
+                        got2.get(key), w, scale=w + 1e-30)
+    ctx.check("restored: no other block carries a value", sorted(got2) == sorted(want0))
+
+
+# ---------------------------------------------------------------------------------------------------------------
+# several converter objects, parameters that get their first value between two conversions
+
+@harness("C13", bounds="third-core mini reactor (centre + 1..3 assemblies, 1 block each); history: changer A "
+                       "converts and restores while only the parameters `early` have ever been assigned in the "
+                       "process, then every block gets its first value of the others (a flux solve), then a second "
+                       "conversion + restore by a NEW changer object / Core.growToFullCore / the same object "
+                       "(instance); symbolic: all values [0,1e9], heights, densities, trackAssems",
+         stubs=STUBS, qtimeout_ms=20000,
+         instances={"quick": [dict(layout="c+1", early=("power", "kgHM"), second="new changer"),
+                              dict(layout="c+3", early=("power", "adjMgFlux"), second="growToFullCore"),
+                              dict(layout="holes", early=("mgFlux",), second="new changer"),
+                              dict(layout="nocentre", early=(), second="growToFullCore")],
+                    "thorough": [dict(layout=lay, early=e, second=sec)
+                                 for lay in ("c+1", "c+3", "holes", "nocentre")
+                                 for e in (("power", "kgHM"), ("mgFlux",), (), ("power", "powerGenerated", "adjMgFlux"))
+                                 for sec in ("new changer", "growToFullCore")] +
+                                [dict(layout="c+1", early=("power", "kgHM"), second="same changer")]})
+def parameters_first_assigned_between_two_conversions_are_scaled(ctx, layout, early, second):
+    """'all sequences of convert / restore' and 'arbitrary block parameters': which parameters carry values changes
+    along a history (at beginning of life no flux has ever been assigned); every conversion has to triple what the
+    blocks carry at THAT time, whichever converter object performs it."""
+    cells, nblocks = LAYOUTS[layout], 1
+    names = SCALARS + LISTS + ARRAYS
+    late = tuple(pn for pn in names if pn not in early)
+    r, core, asms, S = build(ctx, cells, nblocks, assign=early)
+    n0 = len(core)
+    hasCentre = (0, 0) in cells
+    inEarly = input_values(S, cells, nblocks, early)
+    inAll = input_values(S, cells, nblocks, names)
+
+    def check_full(what, inp, skip=()):
+        ctx.check("%s: full core" % what, core.symmetry == FULL and core.isFullCore)
+        ctx.check_eq("%s: assembly count = 3 n - 2 [centre present]" % what, len(core),
+                     3 * n0 - (2 if hasCentre else 0))
+        got = param_values(core, sorted(set(k[2] for k in inp)))
+        for key, w in inp.items():
+            centre = key[0] == (0, 0)
+            if not (centre and key[2] in skip):
+                ctx.check_close("%s: %s[%d] of the source block at %s %s" %
+                                (what, key[2], key[3], (key[0],), "= 3 x its one-third share" if centre else "unchanged"),
+                                got.get(key), 3 * w if centre else w, scale=w + 1e-30)
+            if not centre:
+                for m in (1, 2):
+                    img = U.rot120(key[0][0], key[0][1], m)
+                    ctx.check_close("%s: the %d-degree copy of %s has the source's %s[%d]" %
+                                    (what, 120 * m, (key[0],), key[2], key[3]), got.get((img,) + key[1:]), w,
+                                    scale=w + 1e-30)
+        for pn, g in sorted(set(k[2:] for k in inp)):
+            if hasCentre and pn in skip:
+                continue
+            want = 3 * sum(v for k, v in inp.items() if k[2:] == (pn, g))
+            if ctx.canary and pn == "power" and what.startswith("second"):
+                want = want * ITE(S[0]["h"][0] > 399, 1.01, 1.0)
+            tot = sum(v for k, v in got.items() if k[2:] == (pn, g))
+            ctx.check_close("%s: full-core total of %s[%d] = 3 x the third-core values" % (what, pn, g), tot, want,
+                            scale=want + 1e-30)
+
+    def check_third(what, inp):
+        ctx.check("%s: third core again" % what, core.symmetry == THIRD and not core.isFullCore)
+        ctx.check("%s: the same assemblies at the same cells, nothing else" % what, len(core) == n0 and all(
+            core.childrenByLocator.get(core.spatialGrid[c + (0,)]) is asms[ai] for ai, c in enumerate(cells)))
+        got = param_values(core, sorted(set(k[2] for k in inp)))
+        for key, w in inp.items():
+            ctx.check_close("%s: %s[%d] of the block at %s as before" % (what, key[2], key[3], (key[0],)),
+                            got.get(key), w, scale=w + 1e-30)
+        check_lookups_truthful(ctx, core, what)
+
+    first = gc.ThirdCoreHexToFullCoreChanger(Settings())
+    first.convert(r)
+    check_full("first conversion", inEarly)
+    first.restorePreviousGeometry(r)
+    check_third("first restore", inEarly)
+
+    # a physics solve writes the first value of the remaining parameters on every block
+    for ai, a in enumerate(asms):
+        for k, b in enumerate(a):
+            for pn in late:
+                v = S[ai]["p"][(k, pn)]
+                b.p[pn] = v if pn in SCALARS else list(v)
+
+    skip = ()
+    if second == "new changer":
+        ch = gc.ThirdCoreHexToFullCoreChanger(Settings())
+        ch.convert(r)
+    elif second == "growToFullCore":
+        ch = core.growToFullCore(Settings())
+        ctx.check("growToFullCore hands back a converter of its own", ch is not first)
+    else:
+        ch = first
+        ch.convert(r)
+        if KNOWN_DEFECT_reused_changer_keeps_first_param_list:
+            ctx.note("KNOWN_DEFECT_reused_changer_keeps_first_param_list: a converter object that is used again does "
+                     "not triple the centre values of parameters first assigned after its first conversion; those "
+                     "obligations are skipped")
+            skip = late
+    check_full("second conversion", inAll, skip=skip)
+    ch.restorePreviousGeometry(r)
+    if not skip:
+        check_third("second restore", inAll)
+    else:
+        check_third("second restore", {k: v for k, v in inAll.items() if not (k[0] == (0, 0) and k[2] in skip)})
 
 
 # ---------------------------------------------------------------------------------------------------------------
